@@ -613,7 +613,7 @@ def value_tag(v):
         return {"tag": "TNpFloat" if isinstance(v, np.floating) and not isinstance(v, float) else "TFloat",
                 "z": math.floor(float(v)), "frac": not float(v).is_integer()}
     if isinstance(v, str):
-        return {"tag": "TStr", "txt": zlib.crc32(v.encode()) + 1}
+        return {"tag": "TStr", "txt": zlib.crc32(v.encode()) + 1, "nul": "\x00" in v}
     return {"tag": "TOther", "why": type(v).__name__}
 
 
